@@ -422,6 +422,98 @@ def r02_11(ctx, rep):
            "parse() can return with the connection still open", path=cfg.describe(bad) if bad else "")
 
 
+@SPEC.rule(
+    "R02.12",
+    "the database file is taken away from under other callers only when it is unusable: every call in parser.py that removes or renames a "
+    "file (os.remove / os.unlink / Path.unlink / os.replace / os.rename / shutil.move) sits in an exception handler — the one behind the "
+    "integrity check; a removal on a normal path (`the layout was outdated, start from a fresh file`) leaves a concurrent parse() that has "
+    "already connected on an unlinked file: its entry is lost and its next write fails",
+)
+def r02_12(ctx, rep):
+    R = "R02.12"
+    mod = ctx.module(PARSER, R)
+    n = 0
+    handler_nodes = set()
+    for t in ast.walk(mod):
+        if isinstance(t, ast.Try):
+            for h in t.handlers:
+                for s_ in h.body:
+                    for x in ast.walk(s_):
+                        handler_nodes.add(id(x))
+    for fn in [f for f in ast.walk(mod) if isinstance(f, ast.FunctionDef)]:
+        for c in calls(fn):
+            cn = call_name(c) or ""
+            removing = cn in ("os.remove", "os.unlink", "os.replace", "os.rename", "shutil.move", "shutil.rmtree") or (
+                isinstance(c.func, ast.Attribute) and c.func.attr in ("unlink", "rename", "replace") and not isinstance(c.func.value, ast.Constant)
+                and "path" in norm(c.func.value).lower())
+            if not removing:
+                continue
+            n += 1
+            rep.ob(R, PARSER + ":" + fn.name, "`%s` only in an exception handler" % norm(c)[:50], id(c) in handler_nodes,
+                   "the file is removed / renamed on a path that is not the handling of an error: another parse() that is connected to it keeps "
+                   "working on an unlinked file")
+    if n < 1:
+        raise MechanismMissing(R, "no file removal found in parser.py (the corrupt-database recovery is gone)")
+
+
+@SPEC.rule(
+    "R02.13",
+    "a row another call may have deleted is never taken for granted: every result of cursor.fetchone() in parser.py that is unpacked or "
+    "subscripted is known to be a row at that point (`if result:` / `is not None`), and fetchone() is never unpacked directly — a second "
+    "look-up of `the row we just saw` in a transaction of its own can come back empty after another process's prune",
+)
+def r02_13(ctx, rep):
+    from ..cfg import CFG, assume_truth, must_facts
+    R = "R02.13"
+    mod = ctx.module(PARSER, R)
+    n = 0
+    for fn in [f for f in mod.body if isinstance(f, ast.FunctionDef)]:
+        if not any(method_name(c) == "fetchone" for c in calls(fn)):
+            continue
+        site = PARSER + ":" + fn.name
+        cfg = CFG(fn, R)
+        rows = set()
+        for x in cfg.stmts():
+            a = x.ast
+            if isinstance(a, ast.Assign) and isinstance(a.value, ast.Call) and method_name(a.value) == "fetchone":
+                if isinstance(a.targets[0], ast.Name):
+                    rows.add(a.targets[0].id)
+                else:
+                    n += 1
+                    rep.ob(R, site, "`%s` unpacks a row that may not exist" % norm(a)[:60], False,
+                           "fetchone() returns None when no row matches: unpacking it directly raises TypeError")
+            for sub in ast.walk(a) if not isinstance(a, (ast.FunctionDef, ast.ClassDef)) else []:
+                if isinstance(sub, ast.Subscript) and isinstance(sub.value, ast.Call) and method_name(sub.value) == "fetchone":
+                    n += 1
+                    rep.ob(R, site, "`%s` subscripts a row that may not exist" % norm(sub)[:60], False, "fetchone() returns None when no row matches")
+
+        def transfer(node, facts):
+            if node.kind == "assume":
+                for r_ in rows:
+                    for q, pol in ((r_, True), ("%s is None" % r_, False), ("%s is not None" % r_, True)):
+                        t = assume_truth(node, q)
+                        if t is not None:
+                            facts = facts | {r_} if t == pol else facts - {r_}
+            if node.kind == "stmt" and isinstance(node.ast, ast.Assign) and any(isinstance(t, ast.Name) and t.id in rows for t in node.ast.targets):
+                facts = facts - {t.id for t in node.ast.targets if isinstance(t, ast.Name)}
+            return facts
+
+        IN = must_facts(cfg, transfer)
+        for x in cfg.stmts():
+            a = x.ast
+            uses = []
+            if isinstance(a, ast.Assign) and isinstance(a.targets[0], (ast.Tuple, ast.List)) and isinstance(a.value, ast.Name) and a.value.id in rows:
+                uses.append(a.value.id)
+            if not isinstance(a, (ast.FunctionDef, ast.ClassDef, ast.If, ast.For, ast.While, ast.Try, ast.With)):
+                uses += [s_.value.id for s_ in ast.walk(a) if isinstance(s_, ast.Subscript) and isinstance(s_.value, ast.Name) and s_.value.id in rows]
+            for r_ in uses:
+                n += 1
+                rep.ob(R, site, "`%s` reads a row that is known to exist" % norm(a)[:60], r_ in (IN.get(x.id) or frozenset()),
+                       "`%s` may be None here (no test of it holds on every path to this statement)" % r_)
+    if n < 1:
+        raise MechanismMissing(R, "no use of a fetched row found in parser.py")
+
+
 # -- seeded variants ---------------------------------------------------------
 from ._mut import delete_stmt_where, replace_const_str, replace_in_func  # noqa: E402
 
